@@ -1188,6 +1188,12 @@ class Compiler:
             f = ex.fns.get((fn.crate, f'{base}::promoted[{mp.group(1)}]{dup}')) or ex.fns.get((fn.crate, f'{base}::promoted[{mp.group(1)}]'))
             if f is not None:
                 return lambda fr, f=f: copy_val(ex.const_value(f))
+        # associated constants of the primitive integer types
+        mi = re.fullmatch(r'(?:core::num::<impl )?([iu](?:8|16|32|64|128|size))>?::(BITS|MAX|MIN)', c)
+        if mi:
+            sg, bits = int_info(mi.group(1))
+            v = {'BITS': bits, 'MAX': (1 << (bits - 1)) - 1 if sg else (1 << bits) - 1, 'MIN': -(1 << (bits - 1)) if sg else 0}[mi.group(2)]
+            return lambda fr: v
         # named const / promoted / unit-like variant / fn item written as a path
         name = strip_generics(c)
         cands = [name]
